@@ -161,3 +161,52 @@ package stubs
 //@   ensures result != nil ==> fsExists(name) == old(fsExists(name))
 
 //@ extern os.MkdirAll
+
+// ---- strings.Builder, by length and last byte (contents are not modelled) ----
+//@ gstate sbLen(b int) int
+//@ gstate sbLast(b int) int
+//@ extern (*strings.Builder).WriteString
+//@   params b, s
+//@   modifies sbLen[refOf(b)], sbLast[refOf(b)]
+//@   ensures sbLen(refOf(b)) == old(sbLen(refOf(b))) + len(s) && result0 == len(s) && result1 == nil
+//@   ensures len(s) > 0 ==> sbLast(refOf(b)) == int(s[len(s) - 1])
+//@   ensures len(s) == 0 ==> sbLast(refOf(b)) == old(sbLast(refOf(b)))
+//@ extern (*strings.Builder).WriteByte
+//@   params b, c
+//@   modifies sbLen[refOf(b)], sbLast[refOf(b)]
+//@   ensures sbLen(refOf(b)) == old(sbLen(refOf(b))) + 1 && sbLast(refOf(b)) == int(c) && result == nil
+// (only ASCII runes are written by the code under contract)
+//@ extern (*strings.Builder).WriteRune
+//@   params b, r
+//@   requires r >= 0 && r < 128
+//@   modifies sbLen[refOf(b)], sbLast[refOf(b)]
+//@   ensures sbLen(refOf(b)) == old(sbLen(refOf(b))) + 1 && sbLast(refOf(b)) == int(r) && result0 == 1 && result1 == nil
+//@ extern (*strings.Builder).Len
+//@   params b
+//@   ensures result == sbLen(refOf(b))
+//@ extern (*strings.Builder).Reset
+//@   params b
+//@   modifies sbLen[refOf(b)], sbLast[refOf(b)]
+//@   ensures sbLen(refOf(b)) == 0
+//@ extern (*strings.Builder).String
+//@   params b
+//@   ensures len(result) == sbLen(refOf(b)) && (len(result) > 0 ==> int(result[len(result) - 1]) == sbLast(refOf(b)))
+
+// TrimRight with a one-character cutset: a prefix; nothing is cut when the last byte is not the character.
+//@ extern strings.TrimRight
+//@   ensures len(result) <= len(s)
+//@   ensures len(cutset) == 1 && len(s) > 0 && s[len(s) - 1] != cutset[0] ==> result == s
+//@   ensures len(cutset) == 1 && len(result) > 0 ==> result[len(result) - 1] != cutset[0]
+
+// Index of a one-byte separator: the first occurrence or -1.
+//@ extern strings.Index
+//@   ensures result >= -1 && result < max(len(s), 1) && (len(substr) > 0 && result >= 0 ==> result + len(substr) <= len(s))
+//@   ensures len(substr) == 1 && result >= 0 ==> s[result] == substr[0] && forall(i, 0, result, s[i] != substr[0])
+//@   ensures len(substr) == 1 && result < 0 ==> forall(i, 0, len(s), s[i] != substr[0])
+
+// ReplaceAll of one byte by one byte keeps the length.
+//@ extern bytes.ReplaceAll
+//@   ensures fresh(result) || result == nil
+//@   ensures len(old) == len(new) ==> len(result) == len(s)
+// a zero Builder is empty
+//@ zerovalue strings.Builder sbLen(refOf(x)) == 0
